@@ -73,6 +73,25 @@ def clipIdx (n a : Int) : Nat :=
 def rowSlice {α : Type} (arr : Int → Int → α) (n0 n1 : Int) (i lo hi : Int) : List α :=
   (List.range' (clipIdx n1 lo) (clipIdx n1 hi - clipIdx n1 lo)).map fun (j : Nat) => arr (wrap n0 i) (j : Int)
 
+/-- `(arr[i, lo:hi] & c) == 0`: the mask of a row slice -/
+def rowMaskZero (arr : Int → Int → Int) (n0 n1 i lo hi c : Int) : List Bool :=
+  (rowSlice arr n0 n1 i lo hi).map fun x => decide (band x c = 0)
+
+/-- every cell of `arr[i, lo:hi]` is non-negative (`&` is defined there) -/
+def rowNonneg (arr : Int → Int → Int) (n0 n1 i lo hi : Int) : Bool :=
+  (rowSlice arr n0 n1 i lo hi).all fun x => decide (0 ≤ x)
+
+/-- the indices of `a[lo:hi]` on an axis of length `n` -/
+def sliceIdx (n lo hi : Int) : List Nat := List.range' (clipIdx n lo) (clipIdx n hi - clipIdx n lo)
+
+/-- `np.sum(arr[lo0:hi0, lo1:hi1] & c)` (slices never read outside: Python clips them) -/
+def sumBand2 (arr : Int → Int → Int) (n0 n1 lo0 hi0 lo1 hi1 c : Int) : Int :=
+  ((sliceIdx n0 lo0 hi0).map fun (i : Nat) => ((sliceIdx n1 lo1 hi1).map fun (j : Nat) => band (arr i j) c).sum).sum
+
+/-- every cell of `arr[lo0:hi0, lo1:hi1]` is non-negative (`&` is defined there) -/
+def allNonneg2 (arr : Int → Int → Int) (n0 n1 lo0 hi0 lo1 hi1 : Int) : Bool :=
+  (sliceIdx n0 lo0 hi0).all fun (i : Nat) => (sliceIdx n1 lo1 hi1).all fun (j : Nat) => decide (0 ≤ arr i j)
+
 /-! ### numpy reductions: named, meaning taken from `Model/Interp.lean` -/
 
 /-- `np.sum(np.isfinite(v))` -/
